@@ -472,6 +472,107 @@ async fn run_clone_after_use(addr: SocketAddr, certs: Certs, id: u64, timeout_ms
     Ok((calls, l.received, l.sent))
 }
 
+/// requestor churn on one topic: requestors (each on its own connection) join, one of them leaves abruptly with a
+/// delayed request outstanding (its reply then hits a dead stream at the server), others join afterwards, and all
+/// live requestors call in lock-step volleys — several of them are equally old, so their request ids coincide and
+/// only the server's routing keeps their replies apart
+async fn run_churn(addr: SocketAddr, certs: Certs, id: u64, seed: u64, timeout_ms: u64) -> std::result::Result<(Vec<Call>, u64, u64), String> {
+    let topic = unique_topic("c04c", id);
+    let mut rng = Rng::new(seed ^ id);
+    let log = Arc::new(Mutex::new(ReplierLog { received: 0, sent: 0, prompt_sent: HashMap::new() }));
+    let (_raw, rep_task) = spawn_replier(addr, &certs, &topic, None, timeout_ms, log.clone()).await.map_err(|e| format!("raw replier: {e}"))?;
+    let t0 = Instant::now();
+    let mut calls: Vec<Call> = vec![];
+    type Rq = selium::keep_alive::reqrep::KeepAlive<selium::request_reply::Requestor<StringCodec, StringCodec, String, String>>;
+    let mut live: Vec<(String, selium::Client, Rq)> = vec![];
+    let mut next_name = 0usize;
+    async fn join(addr: SocketAddr, certs: &Certs, topic: &str, timeout_ms: u64) -> std::result::Result<(selium::Client, Rq), String> {
+        let client = lib_client(&addr.to_string(), certs, None).await.map_err(|e| format!("connect: {e}"))?;
+        let rq = client.requestor(topic).with_request_encoder(StringCodec).with_reply_decoder(StringCodec).with_request_timeout(timeout_ms).map_err(|e| e.to_string())?.open().await.map_err(|e| format!("open requestor: {e}"))?;
+        Ok((client, rq))
+    }
+    // sentinel: replier bound and routed
+    {
+        let (c, mut rq) = join(addr, &certs, &topic, timeout_ms).await?;
+        let mut est = false;
+        for n in 0..40 {
+            if let Ok(v) = rq.request(format!("sentinel-{};mode=now;", n)).await {
+                if v.starts_with("re:sentinel") {
+                    est = true;
+                    break;
+                }
+            }
+            tokio::time::sleep(Duration::from_millis(50)).await;
+        }
+        if !est {
+            return Err("precondition not reached: sentinel never answered".into());
+        }
+        live.push(("old0".into(), c, rq));
+    }
+    let phases = 3 + rng.below(2) as usize;
+    for phase in 0..phases {
+        // 1–3 requestors join back to back
+        for _ in 0..rng.range(1, 3) {
+            let (c, rq) = join(addr, &certs, &topic, timeout_ms).await?;
+            live.push((format!("rq{}", next_name), c, rq));
+            next_name += 1;
+        }
+        // one live requestor (any position, the one before the newest most often) leaves abruptly with a request
+        // outstanding whose reply the replier releases a little later
+        if live.len() >= 2 {
+            let k = if rng.pct(50) { live.len() - 2 } else { rng.usize(live.len()) };
+            let (name, client, mut rq) = live.remove(k);
+            let payload = format!("{}-last-words-p{};mode=short;{}", name, phase, "x".repeat(rng.below(40) as usize));
+            let h = tokio::spawn(async move {
+                let _ = rq.request(payload).await;
+            });
+            tokio::time::sleep(Duration::from_millis(3)).await;
+            client.verif_close_connection().await;
+            h.abort();
+            drop(client);
+            // let the delayed reply reach the server and hit the dead stream
+            tokio::time::sleep(Duration::from_millis(timeout_ms / 6 + 60)).await;
+        }
+        // 0–2 more join after the departure
+        for _ in 0..rng.below(3) {
+            let (c, rq) = join(addr, &certs, &topic, timeout_ms).await?;
+            live.push((format!("rq{}", next_name), c, rq));
+            next_name += 1;
+        }
+        // volleys: every live requestor calls at the same time
+        for volley in 0..4 {
+            let mut tasks = vec![];
+            let taken: Vec<(String, selium::Client, Rq)> = std::mem::take(&mut live);
+            for (name, client, mut rq) in taken {
+                let mode = if volley == 3 && rng.pct(30) { Mode::Never } else if rng.pct(70) { Mode::Short } else { Mode::Now };
+                let payload = format!("{}-p{}v{};mode={};{}", name, phase, volley, mode.name(), "y".repeat(rng.below(30) as usize));
+                tasks.push(tokio::spawn(async move {
+                    let start = t0.elapsed().as_millis();
+                    let r = tokio::time::timeout(Duration::from_millis(timeout_ms + 20_000), rq.request(payload.clone())).await;
+                    let end = t0.elapsed().as_millis();
+                    let (result, timed_out) = match r {
+                        Ok(Ok(v)) => (Ok(v), false),
+                        Ok(Err(e)) => {
+                            let t = is_timeout(&e);
+                            (Err(e.to_string()), t)
+                        }
+                        Err(_) => (Err("HUNG: request() did not return within timeout + 20 s".into()), false),
+                    };
+                    (Call { id: payload, mode, requestor: name.clone(), start_ms: start, end_ms: end, result, timed_out }, name, client, rq)
+                }));
+            }
+            for t in tasks {
+                let (call, name, client, rq) = t.await.map_err(|e| format!("harness task: {e}"))?;
+                calls.push(call);
+                live.push((name, client, rq));
+            }
+        }
+    }
+    rep_task.abort();
+    let l = log.lock().unwrap();
+    Ok((calls, l.received, l.sent))
+}
+
 pub fn run(rep: &mut StageReport, tier: &str, seed: u64) {
     let thorough = tier == "thorough";
     let rt = runtime(8);
@@ -544,6 +645,13 @@ pub fn run(rep: &mut StageReport, tier: &str, seed: u64) {
             out.push((2000 + g as u64, match r {
                 Ok(x) => x,
                 Err(_) => Err("watchdog: clone-after-use scenario did not finish within 600 s".into()),
+            }));
+        }
+        for g in 0..(if thorough { 40usize } else { 8 }) {
+            let r = tokio::time::timeout(Duration::from_secs(600), run_churn(server.addr, certs.clone(), 3000 + g as u64, seed, 400)).await;
+            out.push((3000 + g as u64, match r {
+                Ok(x) => x,
+                Err(_) => Err("watchdog: churn scenario did not finish within 600 s".into()),
             }));
         }
         for g in 0..n_gen_scenarios {
